@@ -149,6 +149,49 @@ func scenarios() []*sched.Scenario {
 		a.check(final, true)
 		b.check(final, false)
 	}})
+	// a variable with a transformation function (clamp to 100): what subscribers are told must be what is stored
+	out = append(out, &sched.Scenario{Name: "variable/transformation-clamp", Run: func() {
+		v := reactive.NewVariable[int](func(_ int, n int) int {
+			if n > 100 {
+				return 100
+			}
+			return n
+		})
+		a, b := &varSub{name: "A"}, &varSub{name: "B"}
+		v.OnUpdate(a.cb)
+		v.Set(10)
+		vrt.Par(
+			func() { v.Set(150) },
+			func() { v.Compute(func(c int) int { return c + 95 }) },
+		)
+		v.OnUpdate(b.cb)
+		v.Set(50)
+		vrt.Quiesce()
+		final := v.Get()
+		vrt.Observe("final", final)
+		a.check(final, true)
+		b.check(final, true)
+	}})
+	// three parties: a writer, the unsubscribing of an EARLIER subscriber, and a later subscriber that stays and must
+	// still see every change (the writer walks the callback list while the earlier entry is being removed)
+	out = append(out, &sched.Scenario{Name: "variable/earlier-subscriber-leaves-during-update", Run: func() {
+		v := reactive.NewVariable[int]()
+		a, b, c := &varSub{name: "A"}, &varSub{name: "B"}, &varSub{name: "C"}
+		ua := v.OnUpdate(a.cb)
+		ub := v.OnUpdate(b.cb)
+		v.OnUpdate(c.cb)
+		vrt.Par(
+			func() { v.Set(1); v.Set(2) },
+			func() { ua(); a.unsubbed = true },
+			func() { ub(); b.unsubbed = true },
+		)
+		vrt.Quiesce()
+		final := v.Get()
+		vrt.Observe("final", final)
+		a.check(final, false)
+		b.check(final, false)
+		c.check(final, true)
+	}})
 	out = append(out, &sched.Scenario{Name: "variable/zero-value-trigger+same-value-set", Run: func() {
 		v := reactive.NewVariable[int]()
 		a := &varSub{name: "A"}
